@@ -151,6 +151,25 @@ def TermsP.ofRequest (field : Field) (missing : Option Int) (size segSize minDoc
 def KMap.restrict {V : Type} (m : KMap V) (keep : List Int) : KMap V :=
   ⟨m.hull, fun k => if keep.contains k then m.get k else Option.none⟩
 
+def validKey (after : Option Int) (k : Int) : Bool :=
+  match after with
+  | some a => decide (a < k)
+  | Option.none => true
+
+/-- keys of the page: the first `size` present keys after `after`, in key order -/
+def pageKeys {V : Type} (size : Nat) (after : Option Int) (m : KMap (Nat × V)) : List Int :=
+  ((spanOf m.hull).filter (fun k => validKey after k && (m.get k).isSome)).take size
+
+/-- mirrors: the per-segment eviction (`collect_bucket_with_limit`) and
+`IntermediateCompositeBucketResult::trim` — only the page survives -/
+def compTrim {V : Type} (size : Nat) (after : Option Int) (m : KMap (Nat × V)) : KMap (Nat × V) :=
+  m.restrict (pageKeys size after m)
+
+/-- the fruit of one segment for a composite node, WITH the per-segment eviction -/
+def collectSegComposite {M : Type} [AddOp M] (srcs : List CompSrc) (size : Nat) (after : Option Int) (sub : Req)
+    (docs : List Doc) : KMap (Nat × Inter M sub) :=
+  compTrim size after (collect (.composite srcs size after sub) docs)
+
 /-- mirrors: term_agg/mod.rs::into_intermediate_bucket_result + cut_off_buckets: when a segment
 holds more than `segment_size` distinct terms only the first `segment_size` in request order are
 kept, the cut doc counts go to `sum_other_doc_count`, and the doc count of the first cut bucket
